@@ -18,7 +18,7 @@ MIN_TICK, MAX_TICK = -887272, 887272
 MIN_SQRT = 4295128739
 MAX_SQRT = 1461446703485210103287273052203988822378723970342
 TICKS_FULL = [MIN_TICK, MIN_TICK + 1, -887220, -200040, -60, -1, 0, 1, 60, 200040, 887220, MAX_TICK - 1, MAX_TICK]
-TICKS_QUICK = [MIN_TICK, -200040, -1, 60, MAX_TICK]
+TICKS_QUICK = [MIN_TICK, -200040, -1, 0, 60, MAX_TICK]
 DECIMALS = [6, 8, 18]
 Q96 = 1 << 96
 MULTS = [1, 2, 7, 10**6]
@@ -34,6 +34,25 @@ def F(x) -> Fraction:
     if isinstance(x, Decimal):
         return Fraction(x)
     return Fraction(x)
+
+
+_MAGIC = [0xfffcb933bd6fad37aa2d162d1a594001, 0xfff97272373d413259a46990580e213a, 0xfff2e50f5f656932ef12357cf3c7fdcc, 0xffe5caca7e10e4e61c3624eaa0941cd0,
+          0xffcb9843d60f6159c9db58835c926644, 0xff973b41fa98c081472e6896dfb254c0, 0xff2ea16466c96a3843ec78b326b52861, 0xfe5dee046a99a2a811c461f1969c3053,
+          0xfcbe86c7900a88aedcffc83b479aa3a4, 0xf987a7253ac413176f2b074cf7815e54, 0xf3392b0822b70005940c7a398e4b70f3, 0xe7159475a2c29b7443b29c7fa6e889d9,
+          0xd097f3bdfd2022b8845ad8f792aa5825, 0xa9f746462d870fdf8a65dc1f90e061e5, 0x70d869a156d2a1b890bb3df62baf32f7, 0x31be135f97d08fd981231505542fcfa6,
+          0x9aa508b5b7a84e1c677de54f3e99bc9, 0x5d6af8dedb81196699c329225ee604, 0x2216e584f5fa1ea926041bedfe98, 0x48a170391f7dc42444e8fa2]
+
+
+def ref_sqrt_ratio(tick: int) -> int:
+    """Uniswap v3 TickMath.getSqrtRatioAtTick, ported independently (the range bounds of this check do not come from the library under test)."""
+    a = abs(tick)
+    ratio = _MAGIC[0] if a & 1 else 1 << 128
+    for i in range(1, 20):
+        if a & (1 << i):
+            ratio = (ratio * _MAGIC[i]) >> 128
+    if tick > 0:
+        ratio = ((1 << 256) - 1) // ratio
+    return (ratio >> 32) + (1 if ratio % (1 << 32) else 0)
 
 
 def ref_amounts(sp, sa, sb, liq, d0, d1):
@@ -64,9 +83,19 @@ def check_pair(part: Part, ta, tb, do_market=True):
     from demeter.uniswap import UniV3Pool
     from demeter import TokenInfo
 
-    sa, sb = get_sqrt_ratio_at_tick(ta), get_sqrt_ratio_at_tick(tb)
+    sa, sb = ref_sqrt_ratio(ta), ref_sqrt_ratio(tb)
     pts = price_points(sa, sb)
     case_base = {"lower": ta, "upper": tb}
+    # the range is a set of two ticks: naming them in descending order must not change anything
+    for sp in pts:
+        for d0, d1 in ((6, 18), (18, 6)):
+            amt0, amt1 = Decimal("1234.567891"), Decimal("1.0000006")
+            part.count("evaluations")
+            l_fwd = get_liquidity(sp, ta, tb, amt0, amt1, d0, d1)
+            l_rev = get_liquidity(sp, tb, ta, amt0, amt1, d0, d1)
+            if l_fwd != l_rev or get_amounts(sp, tb, ta, l_fwd, d0, d1) != get_amounts(sp, ta, tb, l_fwd, d0, d1):
+                part.violation("C07|tick-order", "liquidity / amounts depend on the order in which the two range ticks are given", dict(case_base, sqrt=sp, d0=d0, d1=d1),
+                               {"ascending": l_fwd, "descending": l_rev})
     for d0, d1 in itertools.product(DECIMALS, DECIMALS):
         A0, A1 = amounts_for(d0), amounts_for(d1)
         pool = UniV3Pool(TokenInfo("T0", d0), TokenInfo("T1", d1), 0.005, TokenInfo("T0", d0))
@@ -186,6 +215,42 @@ def market_roundtrip(part, case, ta, tb, sp, d0, d1, amt0, amt1, expect):
                            {"used": (used0, used1, liq), "got_back": (get0, get1), "expected": expect})
 
 
+def moving_bar_roundtrip(part, ta, tb):
+    """Deposit and immediate withdrawal at the bar's DEFAULT price in a bar whose close differs from its price: both must use the same price."""
+    import pandas as pd
+    from demeter import Broker, MarketInfo, TokenInfo
+    from demeter.uniswap import UniLpMarket, UniV3Pool, UniswapMarketStatus
+
+    if not (-800000 < ta < tb < 800000):
+        return
+    for q0 in (True, False):
+        for where in ("inside", "below", "above"):
+            part.count("evaluations")
+            part.count("moving_bar_roundtrips")
+            t0, t1 = TokenInfo("T0", 6), TokenInfo("T1", 18)
+            pool = UniV3Pool(t0, t1, 0.005, t0 if q0 else t1)
+            broker = Broker()
+            market = UniLpMarket(MarketInfo("m"), pool)
+            broker.add_market(market)
+            tick_p = {"inside": (ta + tb) // 2, "below": ta - 50, "above": tb + 50}[where]
+            close = {"inside": tb + 70, "below": (ta + tb) // 2, "above": ta - 70}[where]  # the bar ends on the other side of a bound
+            price = market.tick_to_price(tick_p)
+            market.set_market_status(UniswapMarketStatus(None, pd.Series(
+                data=[0, 0, 10**20, close, price], index=["inAmount0", "inAmount1", "currentLiquidity", "closeTick", "price"])), None)
+            broker.set_balance(t0, Decimal(10**6))
+            broker.set_balance(t1, Decimal(10**3))
+            case = {"lower": ta, "upper": tb, "kind": "moving-bar", "q0": q0, "price_tick": tick_p, "close_tick": close}
+            try:
+                pos, base_used, quote_used, liq = market.add_liquidity_by_tick(ta, tb, Decimal(3), Decimal(3), trim_tick=False)
+                base_get, quote_get = market.remove_liquidity(pos, collect=False)
+            except Exception as e:  # noqa: BLE001
+                part.violation(f"C07|market|exception|{type(e).__name__}", f"market round trip raised {type(e).__name__}: {e}", case)
+                continue
+            if liq > 0 and (base_get, quote_get) != (base_used, quote_used):
+                part.violation("C07|market|roundtrip|moving-bar", "withdrawing at the deposit price (the bar's price) does not return the deposited amounts", case,
+                               {"used": (base_used, quote_used, liq), "got_back": (base_get, quote_get)})
+
+
 def work(args):
     seed, pairs = args
     import demeter.uniswap  # sets the library's 35-digit context, as any user import does
@@ -196,6 +261,7 @@ def work(args):
         part.sample({"lower": ta, "upper": tb, "prices": "11 points on/around/between the bounds", "decimals": "{6,8,18}^2",
                      "amounts": "9x9 incl. 0, 1 wei, sub-unit fractions, 1e12"}, every=7)
         check_pair(part, ta, tb)
+        moving_bar_roundtrip(part, ta, tb)
     return part.result()
 
 
@@ -230,6 +296,7 @@ def replay(run: Run, path):
     c = data["case"]
     part = Part()
     check_pair(part, c["lower"], c["upper"])
+    moving_bar_roundtrip(part, c["lower"], c["upper"])
     hit = {s: v for s, v in part.violations.items() if s == data["signature"]}
     for sig, v in (hit or part.violations).items():
         print("reproduced:", sig, v[0], v[1], v[2])
